@@ -69,6 +69,8 @@ type Interp struct {
 type Observation struct {
 	Name string
 	Val  string
+	term *smt.Term
+	uns  bool
 }
 
 func (fr *frame) get(key ssa.Value) value {
